@@ -2,6 +2,7 @@
 import sys
 
 from sa import report, partial as P, rules_read as RD, rules_marks as RM
+from sa import rules_lang as RLNG
 from sa import rules_reader as RRDR
 from sa import rules_extra as RX
 
@@ -38,6 +39,8 @@ def run(ctx, repo):
     RX.r_none_deref(ctx, repo)
     RRDR.r_lookahead_sufficient(ctx, repo)
     RX.r_buffer_encapsulated(ctx, repo)
+    RLNG.r_regex_linear(ctx, repo)
+
 
 if __name__ == '__main__':
     sys.exit(report.main('C03', 'other', run))
